@@ -35,10 +35,13 @@ def r81(db, ctx):
         ctx.fail('R8.1', f, 'cell rounding',
                  f'cell is {X.show(cell["value"], 160)}: expected ceil((x - offsets[i]) / factor); rounding `{rnd}` is not upward, so a cell can under-estimate', span=cell['span'])
         return None
-    # x = pssm[i][j], target = data[i][j], off = offsets[i] with the same i, j
-    bt = m(('idx', ('call~', 'index_mut', ('$data', '$i')), '$j'), tgt)
-    bx = m(('idx', ('call~', '::index', ('$src', '$i2')), '$j2'), b['$x'])
-    bo = m(('call~', '::index', ('$offs', '$i3')), b['$off'])
+    # x = pssm[i][j], target = data[i][j], off = offsets[i] with the same i, j — in any loop form (index loops, zipped row iterators, enumerate)
+    from lm import iteralg
+    CA = iteralg.Canon(f, R)
+    tgt_c, x_c, off_c = CA.canon(cell['target']), CA.canon(b['$x']), CA.canon(b['$off'])
+    bt = m(('at', ('at', '$data', '$i'), '$j'), tgt_c)
+    bx = m(('at', ('at', '$src', '$i2'), '$j2'), x_c)
+    bo = m(('at', '$offs', '$i3'), off_c)
     if not (bt and bx and bo and bt['$i'] == bx['$i2'] == bo['$i3'] and bt['$j'] == bx['$j2']):
         ctx.fail('R8.1', f, 'cell indices', f'cell {X.show(cell["target"], 80)} is not computed from the same (row, column) and the row\'s own offset', span=cell['span'])
         return None
@@ -48,19 +51,57 @@ def r81(db, ctx):
     # coverage: i over all rows of the new matrix, j over all of its columns (the wildcard column included: its cell must be an
     # over-estimate too whenever the wildcard score is finite)
     i_e, j_e = bt['$i'], bt['$j']
-    def full_range(e, what):
-        if not (e[0] == 'elem' and e[1][0] == 'agg' and norm(e[1][2][0]) == ('k', 0)):
-            return False
-        hi = X.canon(norm(e[1][2][1]))
-        if what == 'rows':
-            return 'DenseMatrix::rows(' in hi or 'ScoringMatrix::len(' in hi
-        return 'DenseMatrix::columns(' in hi or (hi.endswith('USIZE') and 'Sub' not in hi and '-1' not in hi)
-    if not full_range(i_e, 'rows'):
-        ctx.fail('R8.1', f, 'row coverage', f'cells are filled for rows {X.show(i_e[1], 80) if i_e[0] == "elem" else X.show(i_e, 80)}, expected 0..rows', span=cell['span'])
+    data, src, offs = bt['$data'], bx['$src'], bo['$offs']
+
+    def def_of(v):
+        if v[0] == 'v':
+            ds = f.defs().get(v[1], [])
+            if len(ds) == 1:
+                return norm(R.call(ds[0][2]) if ds[0][1] == 'term' else R.rvalue(ds[0][2]))
         return None
-    if not full_range(j_e, 'cols'):
+    def is_self_matrix(e):
+        # self.data and self.matrix() are the same object (matrix() is the trivial getter of the field)
+        return m(('call~', 'ScoringMatrix::matrix', (('p', 1),)), e) is not None or m(('fld', ('p', 1), 'data'), e) is not None
+    same_src = lambda e: e == src or (is_self_matrix(e) and is_self_matrix(src))
+    d_data = def_of(data)
+    d_offs = def_of(offs) if offs[0] == 'v' else offs
+    mnew = m(('call~', 'DenseMatrix::new', (('call~', ('DenseMatrix::rows', 'ScoringMatrix::len'), ('$s',)),)), d_data) if d_data is not None else None
+    data_rows_of_src = mnew is not None and (same_src(mnew['$s']) or mnew['$s'] == ('p', 1))
+    offs_per_row = d_offs is not None and any(x[0] == 'call' and x[1].endswith('DenseMatrix::iter') and same_src(norm(x[2][0])) for x in X.walk(d_offs)) \
+        and d_offs[0] == 'call' and d_offs[1].endswith(('Iterator::collect', 'FromIterator::from_iter')) \
+        and not any(x[0] == 'call' and x[1].rsplit('::', 1)[-1] in ('filter', 'take', 'skip', 'step_by', 'take_while', 'skip_while', 'filter_map') for x in X.walk(d_offs))
+
+    def rows_component_ok(c):
+        # the number of iterations contributed by this component is the number of rows of the new matrix
+        if c[0] == 'rows' and (c[1] == data or (same_src(c[1]) and data_rows_of_src)):
+            return True
+        if c[0] == 'sub' and c[2] == ('k', 0):
+            hi = c[1]
+            if m(('call~', ('DenseMatrix::rows', 'ScoringMatrix::len'), ('$m',)), hi) is not None:
+                mm_ = m(('call~', ('DenseMatrix::rows', 'ScoringMatrix::len'), ('$m',)), hi)['$m']
+                return mm_ == data or ((same_src(mm_) or mm_ == ('p', 1)) and data_rows_of_src)
+        if c[0] == 'len' and c[1] == offs and offs_per_row and data_rows_of_src:
+            return True
+        return False
+
+    def cols_component_ok(c):
+        if c[0] == 'len' and c[1][0] == 'at' and c[1][1] in (data, src) and c[1][2] == i_e:
+            return True           # a whole row (fixed-size array of C elements)
+        if c[0] == 'sub' and c[2] == ('k', 0):
+            hi = c[1]
+            if common.is_usize_const(hi):
+                return True
+            mm_ = m(('call~', 'DenseMatrix::columns', ('$m',)), hi)
+            return mm_ is not None
+        return False
+    ri = CA.extents.get(i_e[1]) if iteralg.is_pos(i_e) else None
+    cj = CA.extents.get(j_e[1]) if iteralg.is_pos(j_e) else None
+    if not (ri and all(rows_component_ok(c) for c in ri)):
+        ctx.fail('R8.1', f, 'row coverage', f'cells are filled for rows {X.show(i_e, 60)} over {ri}, expected every row of the new matrix', span=cell['span'])
+        return None
+    if not (cj and all(cols_component_ok(c) for c in cj)):
         ctx.fail('R8.1', f, 'column coverage',
-                 f'cells are filled for columns {X.show(j_e[1], 80) if j_e[0] == "elem" else X.show(j_e, 80)} only: the remaining column(s) keep 0, which under-estimates a finite score of that symbol (e.g. a neutral wildcard)',
+                 f'cells are filled for columns {X.show(j_e, 60)} over {cj} only: the remaining column(s) keep 0, which under-estimates a finite score of that symbol (e.g. a neutral wildcard)',
                  span=cell['span'])
         return None
     # aggregate
